@@ -1,30 +1,36 @@
 /-
-Meaning of the Python `bytes` operations that the source translator (harness/translate/pyarith.py, round 2) emits calls
-to.  Hand-written, core Lean only (imports `Basic` for `Bytes`, `natToBE`, `natOfBE`).  Like `PyInt.lean` this file is the
-translator's trusted reading of the built-ins; the per-run differential validation (arith.validate) compares every
-regenerated definition that uses them with the Python source on sampled points.
+Meaning of the Python `bytes` / `range` operations that the bytes-program translator (harness/translate/pybytes.py)
+emits calls to.  Hand-written, core Lean only.  Together with `natOfBE` (Basic.lean, = `int.from_bytes(x, 'big')`),
+`List.length` (= `len`) and `xs[i]?` (= `xs[i]` for `i ≥ 0`, `none` = IndexError) this is the translator's trusted
+reading of the built-ins; it is validated against CPython on every run (harness/translate/bocheader.py `validate`).
 -/
 import TonVerif.Basic
+
 namespace TonVerif.Py
 
-/-- `xs[a:b]` for `0 ≤ a`, `0 ≤ b`: Python's clamping slice (never raises; empty when `b ≤ a`). -/
-def slice (xs : List α) (a b : Nat) : List α := (xs.take b).drop a
+/-- `xs[a:b]` for `0 ≤ a`, `0 ≤ b`: clamps to the length, never raises, empty when `b ≤ a`. -/
+@[reducible] def slice {α : Type} (xs : List α) (a b : Nat) : List α := (xs.take b).drop a
 
-/-- `xs[a:]` for `0 ≤ a`. -/
-def sliceFrom (xs : List α) (a : Nat) : List α := xs.drop a
+/-- `len(range(a, b, w))` for `0 ≤ a, b` and `w > 0`: `⌈(b - a) / w⌉`, `0` when `b ≤ a`. -/
+def rangeLen (a b w : Nat) : Nat := (b - a + w - 1) / w
 
-/-- `xs[i]` for `0 ≤ i < len(xs)` (the translator emits the side condition `i < xs.length`: Python raises IndexError
-otherwise; the value `0` outside is never used by a theorem whose side condition is proved). -/
-def byteAt (xs : Bytes) (i : Nat) : Nat := xs.getD i 0
+/-- `list(range(a, b, w))` for `0 ≤ a, b, w`; `none` = ValueError (`range() arg 3 must not be zero`). -/
+def range? (a b w : Nat) : Option (List Nat) :=
+  if w = 0 then none else some ((List.range (rangeLen a b w)).map (fun t => a + t * w))
 
-/-- `v.to_bytes(w, 'big' | 'little')` for `0 ≤ v < 256^w` (the translator emits that side condition: Python raises
-OverflowError otherwise). -/
-def toBytes (big : Bool) (w v : Nat) : Bytes := if big then natToBE w v else (natToBE w v).reverse
+/-- `a, b = xs` : `none` = ValueError (wrong number of values to unpack). -/
+def unpack2? {α : Type} : List α → Option (α × α)
+  | [a, b] => some (a, b)
+  | _ => none
 
-/-- `int.from_bytes(bs, 'big' | 'little')` (unsigned). -/
-def fromBytes (big : Bool) (bs : Bytes) : Nat := if big then natOfBE bs else natOfBE bs.reverse
+/-- `a, b, c = xs` -/
+def unpack3? {α : Type} : List α → Option (α × α × α)
+  | [a, b, c] => some (a, b, c)
+  | _ => none
 
-/-- `bs * n` / `n * bs` for `0 ≤ n`: `n` copies of `bs`. -/
-def repeatBytes (bs : Bytes) (n : Nat) : Bytes := (List.replicate n bs).flatten
+/-- `a, b, c, d = xs` -/
+def unpack4? {α : Type} : List α → Option (α × α × α × α)
+  | [a, b, c, d] => some (a, b, c, d)
+  | _ => none
 
 end TonVerif.Py
